@@ -823,14 +823,515 @@ def carried_locals(fn, starts, conv=_SAME_STRING):
     return seen
 
 
-def inplace_mutations(fn, locals_):
+def inplace_mutations(fn, locals_, allow=None):
+    """`allow(fn, local)`: the mutable borrows of that local are accounted for otherwise (a Vec grown by push only, whose
+    pushes are read as its contents)"""
     out = []
     for l in sorted(locals_):
         for bi, kind, idx, how, pl in fn.uses_of(l):
-            if kind == 'stmt' and how == 'refmut':
+            if kind == 'stmt' and how == 'refmut' and not (allow is not None and allow(fn, l)):
                 # a reborrow of a `&mut` parameter's referent that is only handed back is not a change of the carried value
                 line = fn.blocks[bi]['s'][idx][3] if len(fn.blocks[bi]['s'][idx]) > 3 else '?'
                 out.append('%s%s is borrowed mutably (%s:%s)' % (fn.local_name(l) or '_%d' % l, ''.join(str(x) for x in pl[1:]), fn.file, line))
         for d in fn.partial_defs(l):
             out.append('%s is partly overwritten' % (fn.local_name(l) or '_%d' % l))
     return out
+
+
+# ---- what a phase entry point is handed ---------------------------------------------------------------------------------
+_FORCE = ('std::result::Result::<T, E>::unwrap', 'std::result::Result::<T, E>::expect', 'std::option::Option::<T>::unwrap',
+          'std::option::Option::<T>::expect')
+_FORCE_ELSE = ('std::result::Result::<T, E>::unwrap_or_else', 'std::option::Option::<T>::unwrap_or_else')
+
+
+def _ctor_variant(prog, v):
+    """(enum path, variant name, payload values) when v constructs a variant of an enum (aggregate, or the variant's
+    constructor applied as a function: `.map(Self::Detect)`), else None"""
+    if v[0] == 'agg' and v[2] is not None:
+        return v[1], v[2], tuple(x for _, x in v[3])
+    if v[0] == 'call' and v[1] not in prog.fns and '::' in v[1]:
+        enum, var = v[1].rsplit('::', 1)
+        a = prog.adts.get(enum)
+        if a and any(x.get('name') == var for x in a['variants']):
+            return enum, var, tuple(v[2])
+    return None
+
+
+def handed_alts(sl, prog, v, depth=0):
+    """the alternative values `v` can take where it is used, with "failure never gets here" resolved: `?`, unwrap / expect and
+    unwrap_or_else(<closure that never returns>) denote the success payload of each alternative of their receiver (literal
+    failures have none); a payload projection `(x as V).0` selects, among the alternatives of x, those that construct
+    variant V (alternatives constructing another variant of the same enum never reach this use). Values that do not
+    decompose are returned as they are."""
+    from .lib.discard import diverges
+    if depth > 12 or not isinstance(v, tuple) or not v:
+        return [v]
+    if v[0] == 'updated':
+        return handed_alts(sl, prog, v[1], depth + 1)
+    if v[0] == 'phi':
+        return [y for x in v[1] for y in handed_alts(sl, prog, x, depth + 1)]
+    if v[0] == 'unwrap':
+        out = []
+        for y in handed_alts(sl, prog, v[1], depth + 1):
+            p = _peel(sl, y, 1)
+            if p is not None:
+                out.extend(handed_alts(sl, prog, p, depth + 1))
+        return out
+    if v[0] == 'call' and v[2]:
+        forced = v[1] in _FORCE
+        if v[1] in _FORCE_ELSE and len(v[2]) == 2 and v[2][1][0] in ('closure', 'fnitem'):
+            g = prog.fns.get(v[2][1][1])
+            forced = g is not None and diverges(g)
+        if forced:
+            return handed_alts(sl, prog, ('unwrap', v[2][0]), depth + 1)
+    if v[0] == 'field' and isinstance(v[1], tuple) and v[1][0] == 'variant':
+        var = v[1][2]
+        out = []
+        for y in handed_alts(sl, prog, v[1][1], depth + 1):
+            cv = _ctor_variant(prog, _strip(y))
+            if cv is None:
+                return [v]
+            enum, name, payload = cv
+            if name == var:
+                if not (v[2].isdigit() and int(v[2]) < len(payload)):
+                    return [v]
+                out.extend(handed_alts(sl, prog, payload[int(v[2])], depth + 1))
+            else:
+                a = prog.adts.get(enum)
+                if not (a and any(x.get('name') == var for x in a['variants'])):
+                    return [v]      # not the same enum: undecided
+        return out
+    return [v]
+
+
+# ---- closures handed to Option / Result combinators ---------------------------------------------------------------------
+def closure_binding(E, g):
+    """for a closure g handed to an Option / Result combinator in the function that creates it: (combinator Call, {(g.path, 1):
+    value its parameter receives}) in the creating function's terms — ('unwrap_err', recv) for or_else / unwrap_or_else /
+    map_err .., ('unwrap', recv) for map / and_then .. (lib.effects' combinator table); None when g is not used that way"""
+    if g.kind != 'Closure' or not g.parent or g.parent not in E.prog.fns:
+        return None
+    par = E.prog.fns[g.parent]
+    sl = E.slicer
+    for c in par.calls:
+        if c.indirect or len(c.args) < 2:
+            continue
+        for a in c.args[1:]:
+            v = sl.operand(par, a)
+            if isinstance(v, tuple) and v and v[0] == 'closure' and v[1] == g.path:
+                recv = sl.operand(par, c.args[0])
+                b = E._comb_binding(c, recv)
+                if b is None:
+                    return None
+                if (c.decl or '').startswith('std::result::Result::') and (c.decl or '').endswith('::map_or_else') and a is c.args[1]:
+                    b = ('unwrap_err', recv)
+                return c, {(g.path, 1): b}
+    return None
+
+
+# ---- where a mutable borrow ends up ----------------------------------------------------------------------------------------
+def _ref_sinks(fn, r, depth=0):
+    """the uses of reference local r, reborrows followed: [(Call, argument index)] or None when it is used in any other way
+    (stored, returned, written through)"""
+    if depth > 6:
+        return None
+    out = []
+    for bi, kind, idx, how, pl in fn.uses_of(r):
+        if kind == 'arg':
+            c = fn.call_at(bi)
+            if c is None:
+                return None
+            out.append((c, idx))
+        elif kind == 'stmt' and how in ('refmut', 'ref') and list(pl[1:]) == ['*']:
+            st = fn.blocks[bi]['s'][idx]
+            if len(st[1]) != 1:
+                return None
+            sub = _ref_sinks(fn, st[1][0], depth + 1)
+            if sub is None:
+                return None
+            out.extend(sub)
+        elif kind == 'stmt' and how in ('m', 'c') and not list(pl[1:]):
+            st = fn.blocks[bi]['s'][idx]
+            if len(st[1]) != 1 or st[2]['r'] not in ('use', 'cast'):
+                return None
+            sub = _ref_sinks(fn, st[1][0], depth + 1)
+            if sub is None:
+                return None
+            out.extend(sub)
+        elif kind == 'drop':
+            continue
+        else:
+            return None
+    if fn.partial_defs(r):
+        return None      # written through the reference
+    return out
+
+
+def mut_borrow_sinks(fn, local):
+    """for every place where `local` (as a whole) is borrowed mutably: the call arguments the borrow is handed to.
+    [(Call, argument index)], or None when some mutable borrow of it (or of a part of it) is used otherwise"""
+    out = []
+    for bi, kind, idx, how, pl in fn.uses_of(local):
+        if kind == 'stmt' and how == 'refmut':
+            if list(pl[1:]):
+                return None
+            st = fn.blocks[bi]['s'][idx]
+            if len(st[1]) != 1:
+                return None
+            sub = _ref_sinks(fn, st[1][0])
+            if sub is None:
+                return None
+            out.extend(sub)
+    return out
+
+
+# ---- fs::read_to_string, written out ------------------------------------------------------------------------------------------
+# std defines fs::read_to_string(p) as: open the file at p for reading, read it to its end into a fresh String, hand the
+# String back; every failure is returned.  A private helper that does literally that (`let mut s = String::new();
+# File::open(p)?.read_to_string(&mut s)?; Ok(s)`) is the same input read and is read as `fs::read_to_string(p)`.
+_NEW_STRING = ('std::string::String::new', '<std::string::String as std::default::Default>::default', 'std::string::String::with_capacity')
+
+
+def read_to_string_equiv(prog, sl, g):
+    """index of the parameter P when private function g(.., P, ..) is fs::read_to_string(P) written out; else None"""
+    from .lib.discard import result_fates, verdict
+    from .lib.effects import success_sites
+    from .lib.mir import op_place
+    if g.kind not in ('Fn', 'AssocFn') or g.vis == 'pub' or not g.ret.startswith('std::result::Result<std::string::String,'):
+        return None
+    sites = success_sites(g)
+    if not sites:
+        return None
+    bufs = set()
+    for st in sites:
+        if st.kind != 'ok' or st.stmt.get('r') != 'agg' or st.stmt.get('variant') != 'Ok' or len(st.stmt.get('ops', ())) != 1:
+            return None
+        p = op_place(st.stmt['ops'][0])
+        if not p or len(p) != 1:
+            return None
+        l = p[0]
+        for _ in range(6):      # moves
+            ds = g.whole_defs(l)
+            if len(ds) == 1 and ds[0][0] == 'stmt' and ds[0][3]['r'] == 'use' and op_place(ds[0][3]['o']) and len(op_place(ds[0][3]['o'])) == 1:
+                l = op_place(ds[0][3]['o'])[0]
+            else:
+                break
+        bufs.add(l)
+    if len(bufs) != 1:
+        return None
+    s = bufs.pop()
+    ds = g.whole_defs(s)
+    if len(ds) != 1 or ds[0][0] != 'call' or ds[0][3].indirect or ds[0][3].name not in _NEW_STRING or g.partial_defs(s):
+        return None
+    sinks = mut_borrow_sinks(g, s)
+    if not sinks or len(sinks) != 1:
+        return None
+    c, ai = sinks[0]
+    if c.indirect or c.decl != 'std::io::Read::read_to_string' or ai != 1 or len(c.args) != 2:
+        return None
+    # every other use of the buffer is the move into the returned Ok (or its drop on a failure path)
+    for bi, kind, idx, how, pl in g.uses_of(s):
+        if kind == 'drop' or (kind == 'stmt' and how == 'refmut'):
+            continue
+        if kind == 'stmt' and how in ('m', 'c') and not list(pl[1:]) and g.blocks[bi]['s'][idx][2]['r'] == 'use':
+            continue
+        return None
+    # the reader is the file at P, freshly opened for reading, the failure to open it propagated
+    recv = sl.operand(g, c.args[0])
+    opened = None
+    for x in walk(recv):
+        if x[0] == 'unwrap' and _strip_adapters(x)[0] == 'call' and _strip_adapters(x)[1] == 'std::fs::File::open':
+            opened = _strip_adapters(x)
+            break
+    r0 = _strip_adapters(recv)
+    while r0[0] == 'ref' and len(r0) > 1 and isinstance(r0[1], tuple):
+        r0 = _strip_adapters(r0[1])
+    if opened is None or r0 != opened or len(opened[2]) != 1:
+        return None
+    p = same_string(_strip(opened[2][0]))
+    if p[0] != 'param' or p[1] != g.path:
+        return None
+    # the read's failure is returned, and every success comes after the read
+    if verdict(result_fates(prog, g, c)) != 'ok' or not all(g.dominates(c.bb, st.bb) for st in sites):
+        return None
+    return p[2]
+
+
+# ---- collect first, insert afterwards -------------------------------------------------------------------------------------
+# `let mut files = Vec::new(); for .. { files.push((name, content)) } .. for (k, v) in files { env.insert(k, v) }` inserts what
+# was pushed: the elements of a Vec that starts empty and is only grown by push are the pushed values, each under the
+# guards of its push.  In-place growth does not show in symbolic values (the Vec reads `Vec::new()`), so the element of an
+# iteration over such a Vec is replaced by the argument of every push *effect* on that same Vec (same creation site).
+_NEW_VEC = ('std::vec::Vec::<T>::new', 'std::vec::Vec::<T>::with_capacity', '<std::vec::Vec<T> as std::default::Default>::default')
+PUSH = ('std::vec::Vec::<T, A>::push', 'std::vec::Vec::<T>::push')
+_IT_NEXT = 'std::iter::Iterator::next'
+
+
+def _iter_source(v):
+    """the collection an iterator value ranges over (`into_iter` / `iter` / `drain` .. peeled)"""
+    from .lib import iters
+    for _ in range(8):
+        v = _strip(v)
+        if v[0] == 'call' and len(v[2]) == 1 and (v[1].endswith(iters.SAME_ELEMS) or v[1] in iters.SAME or v[1] == 'std::iter::IntoIterator::into_iter'):
+            v = v[2][0]
+            continue
+        break
+    return v
+
+
+def _fresh_vec(v):
+    v = _strip(v)
+    return v[0] == 'call' and v[1] in _NEW_VEC and len(v) > 3 and v[3] is not None and (not v[2] or v[1].endswith('with_capacity'))
+
+
+def collected_elements(v):
+    """sub-values `unwrap(next(it))` of v whose iterator ranges over a Vec that was created empty: [(subterm, Vec value)]"""
+    out = []
+    for x in walk(v):
+        if x[0] == 'unwrap' and isinstance(x[1], tuple) and x[1][0] == 'call' and x[1][1] == _IT_NEXT and x[1][2]:
+            src = _iter_source(x[1][2][0])
+            if _fresh_vec(src) and all(x != y for y, _ in out):
+                out.append((x, src))
+    return out
+
+
+def expand_collected(E, cases, push_effs, order_ok=None):
+    """cases: [(key, value, guards, pushes used)] of an effect.  Every case whose key / value is (part of) the element of an
+    iteration over a grown Vec is replaced by one case per push effect on that Vec (value substituted, the push's guards
+    added); cases without such an element are returned unchanged.  A grown Vec nothing is pushed to yields no case."""
+    from .lib.effects import guards_of
+    sl = E.slicer
+    out = []
+    work = [(c[0], c[1], c[2], ()) for c in cases]
+    rounds = 0
+    while work and rounds < 64:
+        rounds += 1
+        k, v, gs, used = work.pop(0)
+        ce = collected_elements(('tuple', (k, v)))
+        if not ce or len(used) >= 3:
+            out.append((k, v, gs, used))
+            continue
+        sub, vec = ce[0]
+        for p in push_effs:
+            if len(p.args) < 2 or _strip(p.args[0]) != _strip(vec):      # (the value carries its creation site)
+                continue
+            if order_ok is not None and not order_ok(p):
+                out.append((('unknown', 'pushed after the iteration'), ('unknown', 'pushed after the iteration'), gs, used + (p,)))
+                continue
+            own = guards_of(E, p)
+            for pv, g2 in resolve(E, p.args[1]):
+                nk, nv = norm(sl, _replace(k, sub, pv)), norm(sl, _replace(v, sub, pv))
+                work.append((nk, nv, gs + own + g2, used + (p,)))
+    return out
+
+
+def grown_by_push_only(fn, local):
+    """`local` is a Vec created empty in fn whose every mutable borrow is the receiver of Vec::push: its contents are exactly
+    the pushed values (modelled as effects), no element is changed, removed or reordered in place"""
+    ds = fn.whole_defs(local)
+    if len(ds) != 1 or ds[0][0] != 'call' or ds[0][3].indirect or ds[0][3].name not in _NEW_VEC or fn.partial_defs(local):
+        return False
+    sinks = mut_borrow_sinks(fn, local)
+    return sinks is not None and all(ai == 0 and not c.indirect and c.name in PUSH for c, ai in sinks)
+
+
+def collection_locals(fn, loop):
+    """locals that carry the collection a loop iterates over (the iterator, what it was made from by iter / into_iter / moves /
+    borrows), back to the call or projection that produced it"""
+    from .lib import iters
+    from .lib.mir import op_place
+    p0 = op_place(loop.next_call.args[0]) if loop.next_call.args else None
+    seen, work = set(), [p0[0]] if p0 else []
+    while work:
+        l = work.pop()
+        if l in seen or l == 0:
+            continue
+        seen.add(l)
+        if 1 <= l <= fn.argc:
+            continue
+        for d in fn.whole_defs(l):
+            if d[0] == 'stmt':
+                rv = d[3]
+                if rv['r'] in ('use', 'cast'):
+                    p = op_place(rv['o'])
+                    if p:
+                        work.append(p[0])
+                elif rv['r'] == 'ref':
+                    work.append(rv['p'][0])
+            elif d[0] == 'call':
+                c = d[3]
+                nm = c.decl or c.name or ''
+                if not c.indirect and len(c.args) == 1 and (nm.endswith(iters.SAME_ELEMS) or nm in iters.SAME or nm == 'std::iter::IntoIterator::into_iter'):
+                    p = op_place(c.args[0])
+                    if p:
+                        work.append(p[0])
+    return seen
+
+
+def collection_mutations(fn, locals_):
+    """places where a local carrying an iterated collection is changed in place: a mutable borrow that is not just the
+    receiver of Iterator::next (pulling the next element) or of Vec::push on a Vec grown from empty; partial overwrites"""
+    out = []
+    for l in sorted(locals_):
+        ty = fn.locals[l]['ty']
+        for bi, kind, idx, how, pl in fn.uses_of(l):
+            if kind != 'stmt' or how != 'refmut':
+                continue
+            if ty.startswith('&') and list(pl[1:]) == ['*']:
+                continue        # a reborrow of a reference that is itself followed
+            st = fn.blocks[bi]['s'][idx]
+            sinks = _ref_sinks(fn, st[1][0]) if len(st[1]) == 1 and not list(pl[1:]) else None
+            ok = sinks is not None and all(ai == 0 and not c.indirect and (c.decl == _IT_NEXT or (c.name in PUSH and grown_by_push_only(fn, l)))
+                                          for c, ai in sinks)
+            if not ok:
+                line = st[3] if len(st) > 3 else '?'
+                out.append('%s%s is borrowed mutably (%s:%s)' % (fn.local_name(l) or '_%d' % l, ''.join(str(x) for x in pl[1:]), fn.file, line))
+        for d in fn.partial_defs(l):
+            if not ty.startswith('&'):
+                out.append('%s is partly overwritten' % (fn.local_name(l) or '_%d' % l))
+    return out
+
+
+# ---- an array filled slot by slot from a table ----------------------------------------------------------------------------
+# `let mut vals: [T; N] = Default::default(); for (slot, row) in vals.iter_mut().zip(TABLE) { *slot = f(row)?; }` leaves
+# vals[k] = f(TABLE[k]) once the loop is exhausted (slice::IterMut and a literal N-row table are walked in step, position by
+# position).  The in-place fill does not show in symbolic values (vals[k] reads `default()[k]`): filled_array gives the slots.
+_FILLED = {}
+_FILLED_SRC = {}
+
+
+def filled_array(E, fn, local):
+    """{k: value of slot k} for an array local that is filled completely by one loop over `local.iter_mut().zip(<literal
+    table>)` (either order) before anything reads it; None when the local is not of that shape"""
+    key = (id(E.prog), fn.path, local)
+    if key not in _FILLED:
+        try:
+            _FILLED[key] = _filled_array(E, fn, local)
+        except (KeyError, IndexError, TypeError, AttributeError):
+            _FILLED[key] = None
+    return _FILLED[key]
+
+
+def _filled_array(E, fn, local):
+    from .lib import iters
+    from .lib.guards import edge_dominates
+    from .lib.mir import op_place
+    from .lib.value import canon
+    sl = E.slicer
+    ty = fn.locals[local]['ty']
+    if not (ty.startswith('[') and ty.endswith(']') and '; ' in ty and ty.rsplit('; ', 1)[1][:-1].isdigit()):
+        return None
+    n = int(ty.rsplit('; ', 1)[1][:-1])
+    if len(fn.whole_defs(local)) != 1 or fn.partial_defs(local) or not 0 < n <= 12:
+        return None
+    sinks = mut_borrow_sinks(fn, local)
+    if not sinks or len(sinks) != 1:
+        return None
+    ic, ai = sinks[0]
+    if ic.indirect or ai != 0 or len(ic.args) != 1 or not (ic.name or '').endswith('::iter_mut') or not ('slice' in ic.name or 'array' in ic.name):
+        return None
+    site = (fn.path, ic.bb)
+    for lp in E.loops(fn):
+        cv = _strip(lp.collection) if lp.collection is not None else ('unknown',)
+        while cv[0] == 'call' and len(cv[2]) == 1 and cv[1] == 'std::iter::IntoIterator::into_iter':
+            cv = _strip(cv[2][0])
+        if not (cv[0] == 'call' and cv[1] == iters.IT + 'zip' and len(cv[2]) == 2) or getattr(lp, 'exhaust', None) is None:
+            continue
+        sides = [_strip(x) for x in cv[2]]
+        si = [i for i, x in enumerate(sides) if x[0] == 'call' and len(x) > 3 and x[3] == site]
+        if len(si) != 1:
+            continue
+        si = si[0]
+        rows = iters.alts(sl, sides[1 - si])
+        if len(rows) != n or any(f is not None or fl for _, f, fl in rows):
+            return None         # not a literal table of exactly N rows: lengths / positions are not known
+        # the slot reference: the only thing done with position `si` of the element is to take it into one local ...
+        nd = lp.next_call.dest
+        if not nd or len(nd) != 1:
+            return None
+        slot_pl = [nd[0], '@Some', '.0', '.%d' % si]
+        refs = []
+        for bi, kind, idx, how, pl in fn.uses_of(nd[0]):
+            if list(pl[:4]) == slot_pl:
+                st = fn.blocks[bi]['s'][idx] if kind == 'stmt' else None
+                if st is None or list(pl) != slot_pl or st[2]['r'] != 'use' or len(st[1]) != 1:
+                    return None
+                refs.append(st[1][0])
+            elif list(pl) in ([nd[0]], [nd[0], '@Some'], [nd[0], '@Some', '.0']) and how != 'discr':
+                return None     # the element is handed on as a whole
+        if len(refs) != 1:
+            return None
+        r = refs[0]
+        # ... which is only written through, as a whole, with one value
+        if any(kind != 'drop' for bi, kind, idx, how, pl in fn.uses_of(r)) or len(fn.whole_defs(r)) != 1:
+            return None
+        writes = [d for d in fn.partial_defs(r)]
+        if not writes or any(d[0] != 'stmt' or list(d[4]) != [r, '*'] for d in writes):
+            return None
+        vals = {}
+        for d in writes:
+            v = sl._rvalue(fn, d[3], set(), 0, None)
+            vals[canon(v)] = v
+        if len(vals) != 1:
+            return None
+        x = list(vals.values())[0]
+        _FILLED_SRC[(id(E.prog), fn.path, local)] = sorted({op_place(d[3]['o'])[0] for d in writes if d[3].get('r') in ('use', 'cast') and op_place(d[3]['o'])})
+        # every iteration that goes on to the next element has written its slot
+        wbbs = {d[1] for d in writes}
+        some_t = [b for b in fn.succs(lp.exhaust[0]) if b in lp.body]
+        seen, work = set(), list(some_t)
+        while work:
+            b = work.pop()
+            if b in seen or b in wbbs or b not in lp.body:
+                continue
+            if b == lp.header:
+                return None
+            seen.add(b)
+            work.extend(fn.succs(b))
+        # nothing reads the array before the loop is exhausted
+        for bi, kind, idx, how, pl in fn.uses_of(local):
+            if kind == 'drop' or (kind == 'stmt' and how == 'refmut'):
+                continue
+            if not edge_dominates(fn, lp.exhaust[0], lp.exhaust[1], bi):
+                return None
+        out = {}
+        lk = iters.loop_key(lp.collection)
+        for k, (row, _f, _fl) in enumerate(rows):
+            pair = [None, None]
+            pair[si], pair[1 - si] = ('unknown', 'slot %d' % k), row
+            out[k] = norm(sl, E.subst(x, {'__repl__': [(lk, ('tuple', tuple(pair)))]}))
+        return out
+    return None
+
+
+def resolve_filled(E, v, depth=0):
+    """v with every `A[k]` whose A is an array local filled from a table (filled_array) replaced by that slot's value"""
+    if depth > 6 or not isinstance(v, tuple) or not v:
+        return v
+    for x in walk(v):
+        if x[0] == 'index' and isinstance(x[1], tuple) and isinstance(x[2], str) and x[2][1:-1].isdigit():
+            b = _strip(x[1])
+            if b[0] == 'call' and len(b) > 3 and b[3] and b[3][0] in E.prog.fns:
+                fn = E.prog.fns[b[3][0]]
+                c = fn.call_at(b[3][1])
+                if c is not None and c.dest and len(c.dest) == 1:
+                    fa = filled_array(E, fn, c.dest[0])
+                    k = int(x[2][1:-1])
+                    if fa is not None and k in fa:
+                        return resolve_filled(E, _replace(v, x, fa[k]), depth + 1)
+    return v
+
+
+def carried_locals_filled(E, fn, starts):
+    """carried_locals, continued through arrays filled from a table: what is written into their slots carries the value too"""
+    starts = list(starts)
+    for _ in range(4):
+        cl = carried_locals(fn, starts)
+        more = []
+        for l in cl:
+            if fn.locals[l]['ty'].startswith('[') and filled_array(E, fn, l) is not None:
+                more.extend(x for x in _FILLED_SRC.get((id(E.prog), fn.path, l), ()) if x not in cl and x not in more)
+        if not more:
+            return cl
+        starts.extend(more)
+    return carried_locals(fn, starts)
